@@ -52,8 +52,17 @@ func genDbPlan(seed uint64, thorough bool) *Plan {
 				if g.chance(3) {
 					add(g.pick("FLUSHDB", "FLUSHALL"))
 				}
+				if g.chance(3) {
+					// a queued SELECT takes effect when EXEC runs it: the commands
+					// after it (and after EXEC) work on the new database
+					add("SELECT", dbs[g.r.IntN(len(dbs))])
+				}
 				add(g.concCmd(tk)...)
-				add("EXEC")
+				if g.chance(2) {
+					add("EXEC")
+				} else {
+					add(g.pick("EXEC", "DISCARD"))
+				}
 			case 14:
 				add("WATCH", g.key())
 				add("MULTI")
